@@ -3,6 +3,8 @@ import PdshVerif.Dsh.FanExec
 import PdshVerif.Dsh.FanGLive
 import PdshVerif.Dsh.FanGExec
 import PdshVerif.Dsh.FanRelay
+import PdshVerif.Dsh.FanPoll
+import PdshVerif.Dsh.FanX
 import PdshVerif.Props.C05
 
 /-!
@@ -28,6 +30,8 @@ returns only after every command has finished  | `exit_after_all`, `return_after
 nothing happens after the return               | `final_is_end`                     | `G.final_only_late` (only late wake-up calls), `G.final_is_end` |
 no lost completion notification / no deadlock  | `progress`, `progress_enabled`, `stuck_is_final` | `G.progress`, `G.progress_enabled`, `G.stuck_is_final` |
 pdsh ends                                      | `rank_decreases`, `steps_bounded`  | `G.rank_decreases`, `G.steps_bounded` (≤ 18n + 13 + 3k steps with k spurious wake-ups, late calls included) |
+... or stops LOUDLY when a worker cannot be created | (every discipline, `Dsh/FanX.lean`: `pthread_create` failure and the RLIMIT_NOFILE prologue as transitions) `X.all_once_or_loud_exit`, `X.once_only`, `X.exit_is_end`, `X.progress` |
+the worker's read loop is left only at EOF of both streams, everything read and written | (no longer a guard of the composition) `EndToEnd.returns_after_output_delivered_poll` over `Dsh/FanPoll.lean` = protocol × `pollStep` of C05; the guard of `destroyBegin` is the code's loop condition; imports `Relay/Poll.pollRun_inv` (C05 `poll_loop_left_only_at_eof_of_both`, `worker_done_has_delivered_everything`) |
 
 The trace acceptor (`Driver/FanDrv.lean`, `pdshmodel fan`) runs `FanG.step`; it maps an observed call to a label
 by what the call does in the state it is made in (an unlock before the wake-up call is `unlockFirst`, a signal or
@@ -41,9 +45,18 @@ generated over {0, 1, 2, ≥ 3} (harness key `lowfds`, pinned cases in every run
 `pdsh -R exec` with descriptor 0 closed.
 
 Not proved here: that dsh.c refines the LTS (trace correspondence of `checks/c03.py`: every run's projected trace is
-replayed through `FanG.step`, incl. the pdcp worker `_rcp_thread`); fairness of the real scheduler; workers whose
-command never ends (C07: `immortal_never_returns`), `pthread_create` failure and cancellation (^C^Z, C20) are
-outside these models; fanout 0 (the dispatcher then waits forever: C18).  The composed LTS of `EndToEnd` is tied to
+replayed through `FanG.step` -- outside relay mode through `FanX.step`, which wraps it: the pinned `createfail` runs
+(worker i's first `pthread_create` returns EAGAIN, i = 0..2, fanout 1..3, with and without -k) and the `nofile` /
+`nofile_soft` runs (`_increase_nofile_limit` as a function: fanout in use and soft limit reported by the harness and
+compared with `FanX.increaseNofile`) included --, incl. the pdcp worker `_rcp_thread`); fairness of the real scheduler;
+workers whose command never ends (C07: `immortal_never_returns`) and cancellation (^C^Z, C20) are outside these
+models; that `-k` really reaches the running commands when a create fails (`termSent` is the call of `_fwd_signal`,
+monitors only); fanout 0 (the dispatcher then waits forever: C18).  WHICH ADDRESS a target's command is sent to is not in the LTS
+(a target is its index): monitor only -- pinned runs with a transport that wants resolved addresses (harness key
+`resolve`: the harness's resolver has ONE static result buffer like libc's, the instant after a mutex is dropped is a
+scheduling point, the stub checks the address it is handed; 120 schedules, fanout 2 and 3).  `FanPoll` (the loop as code) is not under a trace
+acceptor of its own: its worker component IS C05's `pollStep` (differential execution in checks/c05.py), its protocol
+component IS `FanG.step`; the acceptor's relay mode keeps running the per-stream composition `FanRelay`.  The composed LTS of `EndToEnd` is tied to
 dsh.c the same way: runs whose reads / closes are logged go through `FanRelay.step` (relay mode of `pdshmodel fan`:
 a read outside the worker's loop, or a worker leaving its loop before its polled streams are over, is rejected);
 what the relay writes for given chunks is C05's correspondence; a worker that gives up on its host at a timeout is
@@ -382,6 +395,76 @@ example : (run (init .whileWait 1 2)
 
 end G
 
+/-! ## when resources run out: `pthread_create` fails, the descriptor limit is tight (`Dsh/FanX.lean`)
+
+The protocol LTS wrapped in its environment: the prologue `_increase_nofile_limit` (any limits, `getrlimit` /
+`setrlimit` working or not) and, wherever the dispatcher is about to create a worker, the possibility that
+`pthread_create` fails.  The statement of C03 survives in the only form it can: EITHER every target gets its command
+exactly once and dsh() returns after all of them, OR pdsh stops with a message and exit status 1 -- it never goes on
+without the target whose worker it could not create, and never reports success. -/
+namespace X
+open PdshVerif.Dsh PdshVerif.Dsh.FanX
+
+/-- whatever the environment does, no target's command is started twice, and none for a non-target -/
+theorem once_only {v : FanG.Variant} {setting n : Nat} {k : Bool} {ls : List FanX.Label} {s : FanX.St}
+    (he : FanX.Exec (FanX.init v setting n k) ls s) (i : Nat) :
+    (ls.filterMap FanX.projLabel).count (.w i .connectBegin) ≤ 1 ∧
+    (FanG.Label.w i .connectBegin ∈ ls.filterMap FanX.projLabel → i < n) :=
+  ⟨G.once_only (proj_exec he).1 i, fun h => G.none_else (proj_exec he).1 h⟩
+
+/-- EACH TARGET EXACTLY ONCE, OR A LOUD NON-ZERO EXIT.  Every execution (every limit, every schedule, `pthread_create`
+    failing at any point) is in exactly one of three situations: nothing has happened yet; pdsh is running, no create
+    has failed, the descriptor limit has not changed the fanout (`s.g.f = setting`), and IF dsh() has returned then
+    every target was started exactly once and torn down exactly once; or pdsh has exited with status 1 right after
+    the failed `pthread_create` for a target `j < n` whose command had NOT been started -- with `-k` having forwarded
+    SIGTERM first -- and dsh() has not returned (no exit status 0, no silent skip). -/
+theorem all_once_or_loud_exit {v : FanG.Variant} {setting n : Nat} {k : Bool} {ls : List FanX.Label} {s : FanX.St}
+    (he : FanX.Exec (FanX.init v setting n k) ls s) :
+    (s.ph = .prologue ∧ ls = []) ∨
+    (s.ph = .running ∧ ls.any FanX.Label.isFail = false ∧ s.g.f = setting ∧
+      (FanG.Final s.g → ∀ i, i < n → (ls.filterMap FanX.projLabel).count (.w i .connectBegin) = 1 ∧
+        (ls.filterMap FanX.projLabel).count (.w i .destroyEnd) = 1)) ∨
+    (s.ph = .exited 1 ∧ s.termSent = k ∧ ¬ FanG.Final s.g ∧
+      ∃ j ls0, j < n ∧ ls = ls0 ++ [.createFail j] ∧ ls0.any FanX.Label.isFail = false ∧
+        (ls.filterMap FanX.projLabel).count (.w j .connectBegin) = 0) := by
+  obtain ⟨hex, _, hpro, hrun, hexit⟩ := proj_exec he
+  cases hp : s.ph with
+  | prologue => exact Or.inl ⟨rfl, (hpro hp).1⟩
+  | running =>
+    refine Or.inr (Or.inl ⟨rfl, (hrun hp).1, (FanG.exec_params hex).2.1, fun hf i hi => ?_⟩)
+    have := G.exit_after_all hex hf i hi
+    exact ⟨this.1, this.2.1⟩
+  | exited c =>
+    obtain ⟨hc, ht, hd, hlt, ls0, hls, hnf⟩ := hexit c hp
+    subst hc
+    refine Or.inr (Or.inr ⟨rfl, ht, (by intro hf; rw [hf] at hd; cases hd), s.g.i, ls0, hlt, hls, hnf, ?_⟩)
+    have hinv := FanG.inv_exec (FanG.inv_init v setting n) hex
+    have hidle : FanG.pc s.g s.g.i = .idle := (hinv.front s.g.i).mpr (by simp [FanG.frontier, hd])
+    have := (FanG.hist_exec hex).common s.g.i .connectBegin rfl
+    rw [this, hidle]; rfl
+
+/-- after the exit nothing happens: no further command is started, dsh() does not return -/
+theorem exit_is_end {s : FanX.St} {c : Nat} (h : s.ph = .exited c) (l : FanX.Label) : FanX.step s l = none :=
+  exited_stuck h l
+
+/-- and pdsh does not hang either: while it is running (fanout setting ≥ 1, any descriptor limit) and dsh() has not
+    returned, some operation other than a spurious wake-up is enabled -/
+theorem progress {v : FanG.Variant} {setting n : Nat} {k : Bool} {ls : List FanX.Label} {s : FanX.St}
+    (hpos : 0 < setting) (he : FanX.Exec (FanX.init v setting n k) ls s) (hr : s.ph = .running)
+    (hnf : ¬ FanG.Final s.g) : ∃ l s', l.spurious = false ∧ FanX.step s (.g l) = some s' := by
+  obtain ⟨l, g', hsp, hs⟩ := G.progress hpos ⟨_, (proj_exec he).1⟩ hnf
+  exact ⟨l, { s with g := g' }, hsp, by simp [FanX.step, hr, hs]⟩
+
+/-- non-vacuity: limit 33 = hard limit (nothing to raise), fanout 1, two targets, `-k`; worker 0 runs, the create for
+    worker 1 fails: exit 1 with SIGTERM forwarded, target 0 started once, target 1 never -/
+example : (FanX.run (FanX.init .whileWait 1 2 true)
+    [.nofile 33 33 true true, .g (.d .lock), .g (.d (.create 0)), .g (.d .unlock), .g (.w 0 .connectBegin),
+     .g (.d .lock), .g (.d .wait), .g (.w 0 .connectEnd), .g (.w 0 .destroyBegin), .g (.w 0 .destroyEnd),
+     .g (.w 0 .lock), .g (.w 0 .signal), .g (.d (.wake false)), .g (.w 0 .unlock), .g (.d .relock),
+     .createFail 1]).map (fun s => (s.ph, s.termSent, s.g.f, s.soft)) = some (.exited 1, true, 1, 33) := by decide
+
+end X
+
 /-! ## end to end: "returns only after every started command has finished and its output has been delivered"
 
 The protocol LTS (every signalling discipline) composed with the relay of property C05 (`Dsh/FanRelay.lean`): relay
@@ -430,6 +513,92 @@ example : ∃ s, FanRelay.Exec (FanRelay.init .whileWait 1 1 false) demoTrace s 
   cases hr : FanRelay.run (FanRelay.init .whileWait 1 1 false) demoTrace with
   | none => rw [hr] at h; cases h
   | some s => rw [hr] at h; simp at h; exact ⟨s, exec_of_run hr, h.1, h.2⟩
+
+
+/-! ### the same with the worker's loop as CODE (no hypothesis about when the loop is left)
+
+`FanRelay` lets `W i.destroyBegin` happen "when every polled stream of `i` has finished".  `Dsh/FanPoll.lean` composes
+the protocol with the poll / read loop of `_rsh_thread` as property C05 models it (`pollStep`: arrivals, hang-ups,
+`xpoll` returns reporting any subset, short reads, EAGAIN, EINTR, in any order): there the worker leaves the loop when
+its loop condition `xpfds[0].fd >= 0 || xpfds[1].fd >= 0` is false, and that the streams are then over, read to the
+end and written is the relay's theorem (`Relay/Poll.lean: pollRun_inv`, the invariant behind
+`C05.poll_loop_left_only_at_eof_of_both` and `C05.worker_done_has_delivered_everything`), imported here. -/
+
+open PdshVerif.Dsh.FanPoll in
+/-- C03, whole statement, worker loop included: for every fanout, number of targets, wait construct, signalling
+    discipline, schedule of dispatcher and workers, and every behaviour of the remote sides and of `xpoll` / `read`
+    (what arrives when, which descriptors each poll reports, short reads, EAGAIN, EINTR): when dsh() has returned,
+    for every target `i` the command was started exactly once and torn down exactly once, the worker's loop was left
+    with both poll slots retired, and -- if its connect succeeded -- the stdio calls of its stdout handler (final
+    flush included, made before `rcmd_destroy`) write exactly what the remote side sent on stdout before closing it,
+    labelled, complete, in order, once; likewise stderr (with `-s`; without it the stderr slot is never polled and
+    nothing is written for it).  No hypothesis about the loop: its guard is the code's own loop condition. -/
+theorem returns_after_output_delivered_poll (P : FanPoll.Params) {sizeMeta : Nat}
+    (hg : growthOk sizeMeta = true) (hb0 : mkFifoBuf sizeMeta = some P.b0)
+    {v : FanG.Variant} {f n : Nat} {ls : List FanPoll.Label} {s : FanPoll.St}
+    (he : FanPoll.Exec P (FanPoll.init v f n) ls s) (hf : FanG.Final s.fan) (i : Nat) (hi : i < n)
+    (hconn : s.nofd.contains i = false)
+    (hdO : Spec.Dom05 (markerOf true) (acceptedOf false (FanPoll.evsOf s.evs i) false) = true)
+    (hdE : Spec.Dom05 (markerOf false) (acceptedOf true (FanPoll.evsOf s.evs i) (!P.sopt)) = true) :
+    (ls.filterMap FanPoll.projLabel).count (.w i .connectBegin) = 1 ∧
+    (ls.filterMap FanPoll.projLabel).count (.w i .destroyEnd) = 1 ∧
+    PdshVerif.C05.writtenBy (workerFinish fifoOps P.cfg (P.names i) (P.names 0) (FanPoll.worker P s i)) false =
+      Spec.render (labelPrefix P.cfg.labels P.cfg.keep (P.names i)) (acceptedOf false (FanPoll.evsOf s.evs i) false) ∧
+    PdshVerif.C05.writtenBy (workerFinish fifoOps P.cfg (P.names i) (P.names 0) (FanPoll.worker P s i)) true =
+      Spec.render (labelPrefix P.cfg.labels P.cfg.keep (P.names i))
+        (acceptedOf true (FanPoll.evsOf s.evs i) (!P.sopt)) := by
+  have hfe := FanPoll.fan_refinement he
+  have h1 := G.exit_after_all hfe hf i hi
+  refine ⟨h1.1, h1.2.1, ?_⟩
+  have hleft := FanPoll.final_loops_left he hf i hi hconn
+  have hwO : (FanPoll.initW P.sopt P.b0).out.1.weof = false := by cases hs : P.sopt <;> simp [FanPoll.initW, Worker.init]
+  have hwE : (FanPoll.initW P.sopt P.b0).err.1.weof = !P.sopt := by cases hs : P.sopt <;> simp [FanPoll.initW, Worker.init]
+  have hinv := pollRun_inv P.cfg (P.names i) (dom_room hdO) (dom_room hdE) (FanPoll.evsOf s.evs i)
+    (FanPoll.initW P.sopt P.b0) [] [] (by rw [hwO]; simp) (by rw [hwE]; simp)
+    (FanPoll.initW_inv P.cfg (P.names i) P.sopt hg hb0)
+  have hw : FanPoll.worker P s i =
+      (FanPoll.evsOf s.evs i).foldl (pollStep fifoOps P.cfg (P.names i)) (FanPoll.initW P.sopt P.b0) := rfl
+  rw [← hw] at hinv
+  generalize FanPoll.worker P s i = w at hinv hleft ⊢
+  simp only [Worker.loopLeft, Bool.and_eq_true] at hleft
+  obtain ⟨_, hpo⟩ := hinv.out.2 hleft.1
+  obtain ⟨_, hpe⟩ := hinv.err.2 hleft.2
+  obtain ⟨xo, hxo, hfo, h0o⟩ := stream_closed_form P.cfg (P.names i) 1 true (P.names 0) hdO hinv.out.1
+  obtain ⟨xe, hxe, hfe', h0e⟩ := stream_closed_form P.cfg (P.names i) 2 false (P.names 0) hdE hinv.err.1
+  rw [hpo, List.append_nil] at hxo
+  rw [hpe, List.append_nil] at hxe
+  subst hxo; subst hxe
+  constructor
+  · unfold PdshVerif.C05.writtenBy
+    rw [workerFinish_logOf, hinv.logO]
+    simp only [Bool.false_eq_true, ↓reduceIte]
+    rw [hfo]
+    exact PdshVerif.C05.written_of_closed_form P.cfg (P.names i) 1 _ h0o
+  · unfold PdshVerif.C05.writtenBy
+    rw [workerFinish_logOf, hinv.logE]
+    simp only [↓reduceIte]
+    rw [hfe']
+    exact PdshVerif.C05.written_of_closed_form P.cfg (P.names i) 2 _ h0e
+
+/-- non-vacuity of the composition with the loop: one target, fanout 1, no `-s`; "hi" then "\n" arrive on stdout, a
+    poll with a short read of 1 byte, an interrupted poll, a poll that reads the rest, the remote side closes, the
+    poll that sees EOF retires the slot; only then can the worker tear down; dsh() returns -/
+def demoPoll : List FanPoll.Label :=
+  [.fan (.d .lock), .fan (.d (.create 0)), .fan (.d .unlock), .fan (.w 0 .connectBegin), .fan (.w 0 .connectEnd),
+   .pev 0 (.arrive false [104, 105]), .pev 0 (.poll (some (some 1)) none), .pev 0 .eintr,
+   .pev 0 (.arrive false [10]), .pev 0 (.poll (some none) none), .pev 0 (.hup false), .pev 0 (.poll (some none) none),
+   .fan (.w 0 .destroyBegin), .fan (.w 0 .destroyEnd), .fan (.w 0 .lock), .fan (.w 0 .unlockFirst),
+   .fan (.d .lock), .fan (.d .unlock), .fan (.d .ret)]
+
+example : ∀ b0, mkFifoBuf 1 = some b0 →
+    let P : FanPoll.Params := ⟨⟨true, false, false, false, false⟩, fun _ => [104], b0, false⟩
+    ((FanPoll.run P (FanPoll.init .whileWait 1 1) demoPoll).map fun s => s.fan.dpc) = some .returned ∧
+    -- the worker cannot leave the loop one poll earlier (EOF not yet seen): the guard is the loop condition
+    (FanPoll.run P (FanPoll.init .whileWait 1 1) (demoPoll.take 11 ++ [.fan (.w 0 .destroyBegin)])).isNone = true := by
+  intro b0 h
+  simp [mkFifoBuf, Cbuf.Spec.create, Gen.RELAY_CBUF_MIN, Gen.RELAY_CBUF_MAX] at h
+  subst h
+  decide
 
 end EndToEnd
 
